@@ -26,7 +26,7 @@ TITLE = "metadata routing and propagation"
 RULE = ("routing: breadth-first search over histories of attribute events (see module docstring) on a DimArray, a Dataset and an "
         "Axis, de-duplicated on (attrs, private store, probed labels); every event's returned value / exception / attrs is compared "
         "with the rule table.  propagation: product of arrays carrying array- and axis-level metadata x every operation class named "
-        "by the property.  non-trivial = the event touches attrs or a name of a special class (underscore, member, dimension)")
+        "by the property (metadata also under the names of constructor arguments: cls, self, tol, dtype, name, values, ...).  non-trivial = the event touches attrs or a name of a special class (underscore, member, dimension)")
 ASSUMPTIONS = ["RefObj rule table in mc/props/c16.py transcribes the statement"]
 
 VALS = ["v0", 7, ["m", 1], None, 0, ""]      # values of several types, including None and falsy ones
